@@ -288,6 +288,26 @@ instance (H : HandoffParams) : Decidable H.Good := by unfold HandoffParams.Good;
 accept the streams that follow: later brokered connections, new transports of the main connection)? -/
 def loopPastHandoff (H : HandoffParams) (taken closed : Bool) : Bool := taken || (closed && H.releasedOnClose)
 
+/-- fact (host side): closing a brokered listener that holds a token — its knock was acknowledged, the announced stream
+was never accepted — takes that stream off the session and closes it, instead of leaving it for whichever listener is
+unblocked next -/
+structure ClientCloseParams where
+  discardsAnnounced : Bool
+  deriving DecidableEq, Repr
+
+def ClientCloseParams.Good (C : ClientCloseParams) : Prop := C.discardsAnnounced = true
+instance (C : ClientCloseParams) : Decidable C.Good := by unfold ClientCloseParams.Good; exact inferInstance
+
+/-- the host's session queue when the listener of `next` is unblocked by its knock, after the listener of `closed` was
+closed; `tokenPending` = `closed`'s knock had been acknowledged and its stream never accepted.  Streams are queued in
+the order they were announced. -/
+def queueAtNextAccept (C : ClientCloseParams) (tokenPending : Bool) (closed next : Nat) : List Tag :=
+  (if tokenPending && !C.discardsAnnounced then [Tag.brokered closed] else []) ++ [Tag.brokered next]
+
+/-- the stream the listener of `next` accepts: the head of the queue -/
+def nextAccepts (C : ClientCloseParams) (tokenPending : Bool) (closed next : Nat) : Option Tag :=
+  (queueAtNextAccept C tokenPending closed next).head?
+
 /-- fact: the knock for a brokered connection is sent by the dial function handed to gRPC — the function gRPC calls for
 EVERY transport it creates for that connection (the first, and each one after a GOAWAY, a keepalive failure or a
 transport error) — in the same critical section that opens the stream; not once by `Dial` itself -/
